@@ -15,6 +15,7 @@
 package msg
 
 import (
+	"errors"
 	"io"
 
 	jsonMsg "github.com/fatedier/golib/msg/json"
@@ -24,6 +25,9 @@ type Message = jsonMsg.Message
 
 var msgCtl *jsonMsg.MsgCtl
 
+// ErrNilMessage is returned by ReadMsg for a well-framed message whose body decodes to nothing.
+var ErrNilMessage = errors.New("message body is null")
+
 func init() {
 	msgCtl = jsonMsg.NewMsgCtl()
 	for typeByte, msg := range msgTypeMap {
@@ -32,7 +36,12 @@ func init() {
 }
 
 func ReadMsg(c io.Reader) (msg Message, err error) {
-	return msgCtl.ReadMsg(c)
+	msg, err = msgCtl.ReadMsg(c)
+	if err == nil && msg == nil {
+		// A frame whose body is the JSON literal null decodes to a nil message.
+		err = ErrNilMessage
+	}
+	return
 }
 
 func ReadMsgInto(c io.Reader, msg Message) (err error) {
